@@ -402,6 +402,10 @@ def cross_matrix(ctx, o_x, first_only=False):
                 chk(name + ":passlib-verifies-libpass", cl.verify(secret, hs) is True and cl.verify(wrong, hs) is False, inp, hs, "passlib verifies the libpass-made hash")
                 chk(name + ":libpass-verifies-passlib", lp.verify(ph, secret) is True and lp.verify(ph, wrong) is False, inp, ph, "libpass verifies the passlib-made hash")
                 chk(name + ":needs-update", lp.needs_update(hs) is False and mk(r + 1).needs_update(hs) is True, inp, hs, "False for own fresh hash, True for another cost")
+                # … "another cost" in both directions: a stored cost ABOVE the configured one is another cost too
+                lo_cost = r - 1 if r - 1 >= cl.min_rounds else None
+                if lo_cost is not None:
+                    chk(name + ":needs-update-stored-cost-above", mk(lo_cost).needs_update(hs) is True and mk(lo_cost).needs_update(ph) is True, dict(inp, configured=lo_cost), hs, "True: the stored cost differs from the configured one")
                 for other, lph in lp_all.items():
                     chk(name + ":identify-exactly-own", lph.identify(hs) is (other == name) and lph.identify(ph) is (other == name), inp, {"hasher": other, "libpass": hs, "passlib": ph},
                         "a libpass hasher identifies exactly its own format")
